@@ -52,7 +52,10 @@ def scenarios(ck):
     n = ck.n(170, 4000)
     for i in range(n):
         nt = rng.randint(1, 8)
-        spec = X.gen_program(rng, nt, clean=True, rich=rng.choice([0.3, 0.6, 0.9]), use_map=rng.random() < 0.3, chainy=rng.choice([0.2, 0.5, 0.8]))
+        heavy = rng.random() < 0.25
+        spec = X.gen_program(rng, max(nt, 4) if heavy else nt, clean=True, rich=rng.choice([0.3, 0.6, 0.9]), use_map=rng.random() < 0.3,
+                             chainy=rng.choice([0.2, 0.5, 0.8]), map_heavy=heavy)
+        nt = len(spec['tasks'])
         nw = rng.choice([1, 2, 2, 3, 3, 4, 5])
         r = rng.random()
         refs = X.ref_program(spec)
